@@ -465,6 +465,11 @@ class Planner(C.Planner):
         return op
 
 
+def prepare(verif_seed, index):
+    useed = rngm.derive('universe', verif_seed, PROP, index // RUNS_PER_UNIVERSE)
+    gen_universe(rngm.stream(useed, 'universe'))
+
+
 def run_one(verif_seed, index, tier='quick'):
     seed = rngm.run_seed(verif_seed, PROP, index)
     useed = rngm.derive('universe', verif_seed, PROP, index // RUNS_PER_UNIVERSE)
